@@ -125,6 +125,22 @@ pub proof fn lemma_encode_budget(ff: V3, f: V3, rgb: V3, out: real)
     assert(absr(f.x) + absr(f.y) + absr(f.z) <= 1.0000002real);
     assert(absr(f.x) * 1.5real + absr(f.y) * 1.5real + absr(f.z) * 1.5real <= 1.0000002real * 1.5real);
 }
+// ---- C06, ALL pixels at once: out = transform.mul_arr(v) (f32) vs the CIE reference row tt, for every pixel with |v_k| <= m:
+//   |out - tt.v| <= 1e-5 * max(1, m),  given the Kani-proved entry bound 2e-6 (basis images) and row abs sums <= 5.5
+pub proof fn lemma_primaries_budget(tt: V3, t: V3, v: V3, out: real, m: real)
+    requires m >= 0real, absr(v.x) <= m, absr(v.y) <= m, absr(v.z) <= m,
+             absr(t.x - tt.x) <= 0.000002real, absr(t.y - tt.y) <= 0.000002real, absr(t.z - tt.z) <= 0.000002real, absum(tt) <= 5.5real,
+             absr(out - dot(t, v)) <= row_bound(t.x * v.x, t.y * v.y, t.z * v.z)
+    ensures absr(out - dot(tt, v)) <= 0.00001real * (if m >= 1real { m } else { 1real })
+{
+    lemma_stage(t, tt, v, v, out, 0.000002real, 0real, m, m, m);
+    let st = absr(t.x) + absr(t.y) + absr(t.z);
+    assert(st <= 5.500006real);
+    assert(absr(t.x) * m + absr(t.y) * m + absr(t.z) * m == st * m) by(nonlinear_arith) requires st == absr(t.x) + absr(t.y) + absr(t.z);
+    lemma_mul_mono(st, 5.500006real, m);
+    assert(0.000002real * (m + m + m) == 0.000006real * m);
+    assert(0.00000006real * 3.1real * (5.500006real * m) <= 0.00000103real * m);
+}
 // ---- C08, ALL triples at once: x = inv.mul_arr(v) (f32), y = fwd.mul_arr(x) (f32); F, D exact with F.(D v) = v.  Then |y_j - v_j| <= 2.5e-6,
 // which the quantiser absorbs (Kani rt_pert_*).  Magnitude hypotheses: sum_k |D_ik| w_k <= 2 with w = (1, .5, .5); sum_i |F_ji| <= 1.
 pub proof fn lemma_roundtrip_budget(dd0: V3, dd1: V3, dd2: V3, d0: V3, d1: V3, d2: V3, ff: V3, f: V3, v: V3, x: V3, xx: V3, y: real, vj: real)
@@ -180,15 +196,28 @@ pub proof fn lemma_w(d: V3, dd: V3)
 {}
 '''
 
+C19_LEMMA = r'''
+// C19: for entries and operands in [-2,2] every product entry is within 1e-5*max(1,|exact|) of the exact value (in fact within 2.3e-6)
+pub proof fn lemma_c19_products(a0: real, a1: real, a2: real, out: real)
+    requires absr(a0) <= 4real, absr(a1) <= 4real, absr(a2) <= 4real, absr(out - (a0 + a1 + a2)) <= row_bound(a0, a1, a2)
+    ensures absr(out - (a0 + a1 + a2)) <= 0.0000023real
+{}
+'''
+
 def build(repo):
     g = Gen('u_round')
     g.add(preamble.read('rounded.rs'))
     src = RustSrc(os.path.join(repo, REL))
     # struct declarations (fields made pub) and the generic impl block's where clause, verbatim
-    for ty in ('RowVector', 'Matrix'):
+    for ty in ('RowVector', 'ColVector', 'Matrix'):
         st = strip_attrs_and_docs(src.get(src.find('struct', ty)))
         st = st.replace('(T, T, T)', '(pub T, pub T, pub T)').replace('(RowVector<T>, RowVector<T>, RowVector<T>)', '(pub RowVector<T>, pub RowVector<T>, pub RowVector<T>)')
         g.add(st)
+    # the three constructors (needed by mul_vec / mul_mat), verbatim with their trivial contracts
+    for ty, ens, rn in (('RowVector', 'r == RowVector(x, y, z)', 'r'), ('ColVector', 'ret == ColVector(r, g, b)', 'ret'), ('Matrix', 'r == Matrix(r1, r2, r3)', 'r')):
+        imc = src.find_impl(r'impl<T: Copy> %s<T>$' % ty)
+        spn = src.find('fn', 'new', within=(imc[2], imc[3]), keep_attrs=True)
+        g.add(f'impl<T: Copy> {ty}<T> {{\n' + apply_contract(src.get(spn), C(ensures=[ens], rname=rn), g.dropped) + '\n}\n')
     g.add(SPEC)
     im = src.find_impl(r'impl<T> Matrix<T> where')
     hdr = ' '.join(src.text[im[0]:im[2] - 1].split())
@@ -212,6 +241,32 @@ def build(repo):
     txt = src.get(sp)
     g.under_contract.append({'fn': 'Matrix::mul_arr (T: Rounded)', 'src': f'{REL}:{src.line_of(sp[0])}', 'requires': c.requires, 'ensures': c.ensures})
     g.add(hdr + ' {\n' + apply_contract(txt, c, g.dropped) + '\n}\n')
+    # ---- C19 products under the standard model: mul_vec, mul_mat (same expression shape as mul_arr) and RowVector::dot
+    def row_proof(ro, a, b, c):
+        return (f'let m2 = {ro}.2.mul_spec({c}); let s1 = {ro}.1.fma_spec({b}, m2); let o = {ro}.0.fma_spec({a}, s1); '
+                f'lemma_row_error({ro}.0.val() * {a}.val(), {ro}.1.val() * {b}.val(), {ro}.2.val() * {c}.val(), m2.val(), s1.val(), o.val());')
+    def rerr(ro, a, b, c, out):
+        return (f'absr({out}.val() - ({ro}.0.val() * {a}.val() + {ro}.1.val() * {b}.val() + {ro}.2.val() * {c}.val())) '
+                f'<= row_bound({ro}.0.val() * {a}.val(), {ro}.1.val() * {b}.val(), {ro}.2.val() * {c}.val())')
+    sp = src.find('fn', 'mul_vec', within=(im[2], im[3]), keep_attrs=True)
+    cv = C(ensures=[rerr(f'self.{i}', 'rhs.0', 'rhs.1', 'rhs.2', f'r.{i}') for i in range(3)],
+           head='        proof { T::ax(); ' + ' '.join(row_proof(f'self.{i}', 'rhs.0', 'rhs.1', 'rhs.2') for i in range(3)) + ' }')
+    g.under_contract.append({'fn': 'Matrix::mul_vec (T: Rounded)', 'src': f'{REL}:{src.line_of(sp[0])}', 'requires': [], 'ensures': cv.ensures})
+    mv = apply_contract(src.get(sp), cv, g.dropped)
+    sp = src.find('fn', 'mul_mat', within=(im[2], im[3]), keep_attrs=True)
+    cm = C(ensures=[rerr(f'self.{i}', f'rhs.0.{j}', f'rhs.1.{j}', f'rhs.2.{j}', f'r.{i}.{j}') for i in range(3) for j in range(3)],
+           head='        proof { T::ax(); ' + ' '.join(row_proof(f'self.{i}', f'rhs.0.{j}', f'rhs.1.{j}', f'rhs.2.{j}') for i in range(3) for j in range(3)) + ' }')
+    g.under_contract.append({'fn': 'Matrix::mul_mat (T: Rounded)', 'src': f'{REL}:{src.line_of(sp[0])}', 'requires': [], 'ensures': ['9 entries: row_bound of the three exact products']})
+    mm = apply_contract(src.get(sp), cm, g.dropped)
+    g.add(hdr + ' {\n' + mv + '\n' + mm + '\n}\n')
+    imr = src.find_impl(r'impl<T> RowVector<T> where')
+    hdr_r = ' '.join(src.text[imr[0]:imr[2] - 1].split()).replace('Neg<Output = T>,', 'Neg<Output = T> + Rounded,').replace('Div<T, Output = T>', 'std::ops::Div<T, Output = T>').replace('Neg<Output', 'std::ops::Neg<Output')
+    sp = src.find('fn', 'dot', within=(imr[2], imr[3]), keep_attrs=True)
+    cd = C(ensures=[rerr('self', 'other.0', 'other.1', 'other.2', 'r')],
+           head='        proof { T::ax(); ' + row_proof('self', 'other.0', 'other.1', 'other.2') + ' }')
+    g.under_contract.append({'fn': 'RowVector::dot (T: Rounded)', 'src': f'{REL}:{src.line_of(sp[0])}', 'requires': [], 'ensures': cd.ensures})
+    g.add(hdr_r + ' {\n' + apply_contract(src.get(sp), cd, g.dropped) + '\n}\n')
+    g.add(C19_LEMMA)
     g.dropped.append('U-round: only `struct RowVector/Matrix` and `Matrix::mul_arr` are extracted from matrix.rs; `+ Rounded` appended to the generic where-clause')
     g.assumed.append('SM: standard model of binary32 arithmetic (each rounding has relative error <= 2^-24 plus 2^-149 absolute; no overflow at these magnitudes); both the fused and the unfused fast_mul_add satisfy fma_bound (proved: lemma_fused_fma / lemma_unfused_fma)')
     return g
